@@ -97,14 +97,16 @@ ACyclic(n, a) == \E f \in 1..(n + 1) : f \in AClose(a, a[f])
 (* files (environment variable C12_SLICE = "0".."5", chosen from the seed); *)
 (* "all" (default, thorough tier) explores every adjacency.                 *)
 Slice == IF "C12_SLICE" \in DOMAIN IOEnv THEN IOEnv.C12_SLICE ELSE "all"
-Code(n, a) == SumSet({f * 7 + SumSet(a[f]) * f : f \in 1..(n + 1)})
-InSlice(n, a) == \/ n < 3 \/ Slice = "all"
-                 \/ Slice = ToString(Code(n, a) % 6)
+(* every sixth element (in TLC's fixed enumeration order of the set) *)
+Sliced(n, S) ==
+  IF n < 3 \/ Slice = "all" THEN S
+  ELSE LET q == SetToSeq(S)
+       IN {q[i] : i \in {j \in 1..Len(q) : ToString(j % 6) = Slice}}
 (* computed once (TLC caches constant definitions without parameters) *)
 AcAdjTable == [n \in 1..MaxN |->
-                 {a \in Adjs(n) : AReachAll(n, a) /\ ~ACyclic(n, a) /\ InSlice(n, a)}]
+                 Sliced(n, {a \in Adjs(n) : AReachAll(n, a) /\ ~ACyclic(n, a)})]
 CyAdjTable == [n \in 1..MaxN |->
-                 {a \in Adjs(n) : AReachAll(n, a) /\ ACyclic(n, a) /\ InSlice(n, a)}]
+                 Sliced(n, {a \in Adjs(n) : AReachAll(n, a) /\ ACyclic(n, a)})]
 AcAdjs(n) == AcAdjTable[n]
 CyAdjs(n) == CyAdjTable[n]
 HasPair(n, a) == \E f \in 1..(n + 1) : Cardinality(a[f]) = 2
